@@ -2,6 +2,7 @@ package c13
 
 import (
 	"fmt"
+	"math/bits"
 	"strings"
 	"testing"
 
@@ -115,6 +116,20 @@ func genBGV(t *rapid.T) BGVCase {
 	switch {
 	case c.Short:
 		c.Level = rapid.IntRange(0, depth-1).Draw(t, "level")
+	case c.Invariant:
+		// scale-invariant mode consumes no level: any level whose modulus holds the noise is in the domain
+		// (noise budget in bits, see assumptions.txt; every Q prime has at least 49 bits)
+		tb := bits.Len64(T)
+		budget := depth*(tb+logN+3) + 2*tb + logN + depth + 23
+		min := (budget+48)/49 - 1
+		if min > L {
+			min = L
+		}
+		if rapid.IntRange(0, 2).Draw(t, "levelMin") == 0 {
+			c.Level = min
+		} else {
+			c.Level = rapid.IntRange(min, L).Draw(t, "level")
+		}
 	case rapid.IntRange(0, 2).Draw(t, "levelMin") == 0:
 		c.Level = depth
 	default:
@@ -317,8 +332,17 @@ func runBGV(c BGVCase, rec *h.Rec) error {
 		rec.NonTrivial(fmt.Sprintf("short|%s|deg=%d|lvl=%d|pb=%v", c.Kind, c.Degree, c.Level, c.FromPB))
 		return nil
 	}
+	if err != nil && c.Invariant && c.Level < depth {
+		// No level is consumed in this mode, so no level is "too few"; lattigo's level guard nevertheless applies.
+		// The statement does not decide this input class: a refusal is accepted (and counted trivial), a result is checked.
+		rec.Class("bfv:level<depth:refused")
+		return nil
+	}
 	if err != nil {
 		return h.Failf("C13:"+mode+":Evaluate:error", "degree %d at level %d (depth %d): %v", c.Degree, c.Level, depth, err)
+	}
+	if c.Invariant && c.Level < depth {
+		rec.Class("bfv:level<depth:evaluated")
 	}
 
 	// depth contract
